@@ -454,3 +454,8 @@ func protocolRefusal() {
 		kit.Failf("dial-after-close", "attempts after Close")
 	}
 }
+
+// Bodies re-run by C11 under the race-instrumented build.
+var RaceBodies = map[string]func(){
+	"c14-close-during-dial": closeDuringDial,
+}
